@@ -31,9 +31,16 @@ class Ctx:
     def __init__(self, prog):
         self.prog = prog
         self.ret_shapes = {}
+        self.top_interps = {}
+        self.write_sets = {}
         self.in_progress = set()
-        self.entry_states = {}       # body key -> State (top-down, non-pub functions)
+        self.entries = {}            # body key -> State (top-down, crate-private functions)
         self.field_inv = {}          # (adt key, field index) -> Dom
+        self.field_cands = {}
+        self.posts_cache = {}
+        self.posts_in_progress = set()
+        from . import summaries
+        summaries.init_names(prog)
         self.interps = {}
         self.unit_enums = {}
         for k, a in prog.adts.items():
@@ -41,6 +48,8 @@ class Ctx:
                 ds = [int(v["discr"]) for v in a["variants"]]
                 if ds:
                     DISCR_RANGE[k] = (min(ds), max(ds))
+                for vi, v in enumerate(a["variants"]):
+                    absint.DISCR_OF[(k, vi)] = int(v["discr"])
                 self.unit_enums[k] = all(not v["fields"] for v in a["variants"])
         DISCR_RANGE.setdefault("core::option::Option", (0, 1))
         DISCR_RANGE.setdefault("core::result::Result", (0, 1))
@@ -52,24 +61,72 @@ class Ctx:
             return vi
         return int(a["variants"][vi]["discr"])
 
-    def interp(self, key, entry=None, fresh=False):
-        if not fresh and entry is None and key in self.interps:
+    def interp(self, key):
+        """analysis of a body under its entry state (top for externally reachable functions)"""
+        if key in self.interps:
             return self.interps[key]
-        it = Interp(self, self.prog.bodies[key], entry)
+        it = Interp(self, self.prog.bodies[key], self.entries.get(key))
         it.run()
-        if entry is None and not fresh:
-            self.interps[key] = it
+        self.interps[key] = it
         return it
 
-    def ret_shape(self, key):
-        if key in self.ret_shapes:
-            return self.ret_shapes[key]
+    def posts(self, key):
+        if key in self.posts_cache:
+            return self.posts_cache[key]
+        if key in self.posts_in_progress:
+            return {}
+        self.posts_in_progress.add(key)
+        try:
+            from . import summaries
+            p = summaries.compute_posts(self, key)
+            self.posts_cache[key] = p
+            return p
+        finally:
+            self.posts_in_progress.discard(key)
+
+    def top_interp(self, key):
+        """analysis of a body under the top entry state (valid for every caller); None inside recursion"""
+        if key in self.top_interps:
+            return self.top_interps[key]
         if key in self.in_progress:
-            return None      # recursion => top
+            return None
         self.in_progress.add(key)
         try:
             it = Interp(self, self.prog.bodies[key], None)
             it.run()
+            self.top_interps[key] = it
+            return it
+        finally:
+            self.in_progress.discard(key)
+
+    def write_set(self, key):
+        """{param index: set of projection prefixes the callee may write through that parameter} or None = unknown"""
+        if key in self.write_sets:
+            return self.write_sets[key]
+        it = self.top_interp(key)
+        if it is None:
+            return None
+        ws = {}
+        unknown = False
+        for (root, proj) in it.writes:
+            X = root[1]
+            if isinstance(X, tuple) and X[0] == "ld" and X[2] == "entry" and X[1][0][0] == "L" and not X[1][1] and 1 <= X[1][0][1] <= it.body.arg_count:
+                ws.setdefault(X[1][0][1], set()).add(proj)
+            elif isinstance(X, tuple) and X[0] in ("call", "model", "proj", "elem", "fresh", "phi"):
+                continue     # memory obtained inside the callee (not reachable from the caller's named locations)
+            else:
+                unknown = True
+        res = None if unknown else ws
+        self.write_sets[key] = res
+        return res
+
+    def ret_shape(self, key):
+        if key in self.ret_shapes:
+            return self.ret_shapes[key]
+        it = self.top_interp(key)
+        if it is None:
+            return None
+        if True:
             shape = None
             for bi in it.body.return_blocks:
                 S = it.exit_state(bi)
@@ -80,8 +137,6 @@ class Ctx:
                 shape = sh if shape is None else join_shape(shape, sh)
             self.ret_shapes[key] = shape
             return shape
-        finally:
-            self.in_progress.discard(key)
 
 
 # ------------------------------------------------------------------------------------ return shapes
@@ -100,7 +155,10 @@ def shape_of(v, S, ctx, ty=None, depth=0):
         vi = v[2] if v[2] is not None else 0
         sh["variants"] = {vi: [shape_of(f, S, ctx, None, depth + 1) for f in v[3]]}
         return sh
-    if isinstance(v, tuple) and v[0] == "upd" and isinstance(v[1], tuple) and v[1][0] == "agg":
+    if isinstance(v, tuple) and v[0] == "vagg":
+        sh["variants"] = {vi: [shape_of(f, S, ctx, None, depth + 1) for f in fields] for vi, fields in v[2]}
+        return sh
+    if isinstance(v, tuple) and v[0] == "upd" and isinstance(v[1], tuple) and v[1][0] in ("agg", "vagg"):
         return shape_of(v[1], S, ctx, ty, depth)
     if ti and ti.get("k") == "adt":
         d = S.dom(("discr", v))
@@ -241,6 +299,12 @@ class Interp:
             v = promoted_read(loc, v)
         if sv_type(v) is None and isinstance(v, tuple) and v[0] not in ("agg", "ref", "upd"):
             set_ty(v, tykey(place.ty))
+        if self.ctx.field_inv and place.proj:
+            last = place.proj[-1]
+            if isinstance(last, dict) and "f" in last and last.get("a"):
+                inv = self.ctx.field_inv.get((last["a"], last["f"]))
+                if inv is not None and not is_const(v):
+                    S.set_dom(v, inv)
         return v
 
     def eval_op(self, S, op):
@@ -643,11 +707,30 @@ class Interp:
         R = ("call", self.site(), path)
         dest = Place(t["dest"])
         set_ty(R, tykey(dest.ty))
-        self.havoc_args(S, t, args)
-        if path in self.prog.bodies:
+        local = path in self.prog.bodies
+        S_pre = S.copy() if local else None
+        ws = self.ctx.write_set(path) if local else None
+        if ws is None:
+            self.havoc_args(S, t, args)
+        else:
+            for i, (a, op) in enumerate(zip(args, t["args"])):
+                projs = ws.get(i + 1)
+                if not projs:
+                    # nested references inside aggregates / closures stay conservative
+                    if isinstance(a, tuple) and a[0] in ("agg", "upd"):
+                        self.havoc_value(S, a, None)
+                    continue
+                base = self.target(a)
+                for pr in projs:
+                    S.havoc((base[0], base[1] + pr), self.site())
+        if local:
             shape = self.ctx.ret_shape(path)
             adt = dest.ty.get("adt") if dest.ty.get("k") == "adt" else None
             apply_shape(S, R, shape, self.ctx, adt)
+            posts = self.ctx.posts(path)
+            if posts:
+                from . import summaries
+                summaries.apply_posts(self, S_pre, S, t, args, R, posts, self.prog.bodies[path])
         return R
 
     def havoc_args(self, S, t, args, skip=()):
@@ -675,6 +758,15 @@ class Interp:
 
     # ---------------------------------------------------------------- fixpoint
     def run(self):
+        saved = absint.WRITE_LOG
+        self.writes = set()
+        absint.WRITE_LOG = self.writes
+        try:
+            return self._run()
+        finally:
+            absint.WRITE_LOG = saved
+
+    def _run(self):
         body = self.body
         self.entry_states = {0: self.initial_state()}
         self.edge_out = {}
@@ -758,6 +850,14 @@ class Interp:
     def walk(self, visitor=None, collect=True):
         """replay every reachable block once from its fixpoint entry state"""
         self.obligations = [] if collect else None
+        saved = absint.WRITE_LOG
+        absint.WRITE_LOG = None
+        try:
+            return self._walk(visitor, collect)
+        finally:
+            absint.WRITE_LOG = saved
+
+    def _walk(self, visitor, collect):
         for bi in self.body.rpo:
             S0 = self.entry_states.get(bi)
             if S0 is None:
